@@ -1,5 +1,5 @@
 \* one cell anywhere in a 2x2 window holding any text of length <= 3 over the 7-character alphabet {a , " ' CR LF SP}
-CONSTANTS NSheets = 1 MaxR = 2 MaxC = 2 MaxCells = 1 FreeLen = 0 Escape = TRUE Record = FALSE
+CONSTANTS NSheets = 1 MaxR = 2 MaxC = 2 MaxCells = 1 FreeLen = 0 Escape = TRUE Overwrite = FALSE Record = FALSE
 CONSTANTS Values <- DeepValues FreeAlphabet <- NoFree
 SPECIFICATION Spec
 INVARIANTS TypeOK InStep ParsedEqualsGrid Rectangular WellFormed FoldAgrees
